@@ -20,7 +20,6 @@ import (
 	"errors"
 	"fmt"
 	"io"
-	stdlog "log"
 	"net"
 	"net/http"
 	"net/http/httptest"
@@ -237,6 +236,29 @@ type vc19Req struct {
 	HasConnHeader  bool
 	PathClasses    []string
 	AbsoluteTarget bool
+
+	// Self is the client's own address ("" if unknown); forged values never
+	// equal it.
+	Self string
+
+	// Sent are the values the client sent per canonical forwarding header.
+	Sent map[string][]string
+
+	// ZeroForged: some forged value is empty / a zero address / another
+	// peer's loopback address instead of a documentation-range marker.
+	ZeroForged bool
+
+	// Chunked: the body is sent with chunked transfer coding; TrailerForged:
+	// with forged client-IP fields in the trailer section.
+	Chunked       bool
+	TrailerForged bool
+
+	// Query is the query part of Target including the question mark.
+	Query string
+
+	// Variant names the single component in which this request differs from
+	// the previous one on the connection, "" if it was drawn afresh.
+	Variant string
 }
 
 var vc19IDs = []string{"dev1234", "0123456789abcdef", "a", "b", "example.com", "x-y_z~1", "0"}
@@ -490,6 +512,17 @@ func vc19HasMarker(v string) (ok bool) {
 		strings.Contains(low, "vc19mark")
 }
 
+// vc19ZeroValue draws a forged value that is not a documentation-range marker:
+// empty, a zero address, "unknown", or the loopback address of another peer.
+func vc19ZeroValue(t *rapid.T, self string) (v string) {
+	v = rapid.SampledFrom([]string{"", "0.0.0.0", "::", "0", "unknown", "127.0.0.1", "127.0.0.2", "::1", "127.0.0.9"}).Draw(t, "zero-value")
+	if v == self {
+		return "127.0.0.10"
+	}
+
+	return v
+}
+
 func vc19FwdValue(t *rapid.T, canon string) (v string) {
 	m := vc19Marker(t)
 	switch canon {
@@ -541,7 +574,18 @@ func vc19GenHeaders(t *rapid.T, r *vc19Req) {
 		}
 
 		for i := 0; i < rep; i++ {
-			hs = append(hs, [2]string{vc19WireName(t, canon), vc19FwdValue(t, canon)})
+			v := vc19FwdValue(t, canon)
+			if rapid.IntRange(0, 4).Draw(t, "forge-zero") == 0 {
+				v = vc19ZeroValue(t, r.Self)
+				r.ZeroForged = true
+			}
+
+			hs = append(hs, [2]string{vc19WireName(t, canon), v})
+			if r.Sent == nil {
+				r.Sent = map[string][]string{}
+			}
+
+			r.Sent[canon] = append(r.Sent[canon], v)
 		}
 
 		r.Forged = append(r.Forged, canon)
@@ -595,9 +639,14 @@ func vc19GenHeaders(t *rapid.T, r *vc19Req) {
 	r.Headers = hs
 }
 
-// vc19GenReq draws a whole request.
+// vc19GenReq draws a whole request from a client of unknown address.
 func vc19GenReq(t *rapid.T) (r *vc19Req) {
-	r = &vc19Req{}
+	return vc19GenReqFor(t, "")
+}
+
+// vc19GenReqFor draws a whole request for the client with address self.
+func vc19GenReqFor(t *rapid.T, self string) (r *vc19Req) {
+	r = &vc19Req{Self: self}
 	segs, preferred := vc19GenPath(t, r)
 	r.Method = vc19Method(t, preferred)
 
@@ -612,22 +661,19 @@ func vc19GenReq(t *rapid.T) (r *vc19Req) {
 	}
 
 	r.RawPath = raw
-	r.Target = raw
 	switch rapid.IntRange(0, 9).Draw(t, "query") {
 	case 0:
-		r.Target += "?x=1"
+		r.Query = "?x=1"
 	case 1:
-		r.Target += "?/../../secret"
+		r.Query = "?/../../secret"
 	case 2:
-		r.Target += "?"
+		r.Query = "?"
 	case 3:
-		r.Target += "?next=/linkip/a/b&y=%2e%2e"
+		r.Query = "?next=/linkip/a/b&y=%2e%2e"
 	}
 
-	if rapid.IntRange(0, 14).Draw(t, "absolute-form") == 0 {
-		r.AbsoluteTarget = true
-		r.Target = "http://other.example" + r.Target
-	}
+	r.AbsoluteTarget = rapid.IntRange(0, 14).Draw(t, "absolute-form") == 0
+	r.vc19SetTarget()
 
 	r.Proto = "HTTP/1.1"
 	if rapid.IntRange(0, 9).Draw(t, "http10") == 0 {
@@ -636,10 +682,111 @@ func vc19GenReq(t *rapid.T) (r *vc19Req) {
 
 	if r.Method == http.MethodPost || r.Method == http.MethodPut || rapid.IntRange(0, 9).Draw(t, "body-any") == 0 {
 		r.Body = rapid.SampledFrom([]string{"", "", "ip=203.0.113.7", "{}"}).Draw(t, "body")
+		if r.Proto == "HTTP/1.1" && rapid.IntRange(0, 3).Draw(t, "chunked") == 0 {
+			r.Chunked = true
+			r.TrailerForged = rapid.Bool().Draw(t, "trailer")
+		}
 	}
 
 	vc19GenHeaders(t, r)
-	r.PathClasses, _ = vc19PathClasses(raw)
+
+	return r
+}
+
+// vc19SetTarget derives the request-target and the path classes from RawPath,
+// Query and AbsoluteTarget.
+func (r *vc19Req) vc19SetTarget() {
+	r.Target = r.RawPath + r.Query
+	if r.AbsoluteTarget {
+		r.Target = "http://other.example" + r.Target
+	}
+
+	// A question mark inside a drawn segment starts the query.
+	onlyPath, _, _ := strings.Cut(r.RawPath, "?")
+	r.PathClasses, _ = vc19PathClasses(onlyPath)
+}
+
+// vc19Vary returns a request that differs from prev in exactly one component
+// which the proxy must tell apart (method, one segment, arity, keyword,
+// spelling, header set).
+func vc19Vary(t *rapid.T, prev *vc19Req) (r *vc19Req) {
+	c := *prev
+	r = &c
+	r.Mutated = prev.Mutated + 1
+	if r.Proto != "HTTP/1.1" {
+		r.Proto = "HTTP/1.1"
+	}
+
+	raw := prev.RawPath
+	switch op := rapid.IntRange(0, 8).Draw(t, "vary-op"); op {
+	case 0:
+		r.Variant = "method-swap"
+		switch prev.Method {
+		case http.MethodGet:
+			r.Method = http.MethodPost
+		default:
+			r.Method = http.MethodGet
+		}
+	case 1:
+		r.Variant = "method-spelling"
+		r.Method = rapid.SampledFrom([]string{strings.ToLower(prev.Method), http.MethodHead, prev.Method + "X", "PUT"}).Draw(t, "vary-method")
+	case 2:
+		r.Variant = "toggle-status"
+		if strings.HasSuffix(raw, "/status") {
+			raw = strings.TrimSuffix(raw, "/status")
+		} else {
+			raw = strings.TrimSuffix(raw, "/") + "/status"
+		}
+	case 3:
+		r.Variant = "swap-keyword"
+		switch {
+		case strings.HasPrefix(raw, "/linkip/"):
+			raw = "/ddns/" + strings.TrimPrefix(raw, "/linkip/")
+		case strings.HasPrefix(raw, "/ddns/"):
+			raw = "/linkip/" + strings.TrimPrefix(raw, "/ddns/")
+		default:
+			raw = "/linkip" + raw
+		}
+	case 4:
+		r.Variant = "one-more-segment"
+		raw = strings.TrimSuffix(raw, "/") + "/" + vc19Seg(t, "vary-seg")
+	case 5:
+		r.Variant = "one-segment-less"
+		if i := strings.LastIndex(strings.TrimSuffix(raw, "/"), "/"); i > 0 {
+			raw = raw[:i]
+		} else {
+			raw = "/"
+		}
+	case 6:
+		r.Variant = "header-set"
+		r.Forged, r.Sent, r.ZeroForged = nil, nil, false
+		r.ConnListsCIP, r.SentOwnCIP, r.HasConnHeader = false, false, false
+		vc19GenHeaders(t, r)
+	case 7:
+		r.Variant = "keyword-spelling"
+		switch {
+		case strings.HasPrefix(raw, "/linkip"):
+			raw = rapid.SampledFrom([]string{"/%6cinkip", "/LINKIP", "/linkip%2F", "/linkipx", "//linkip"}).Draw(t, "vary-kw") +
+				strings.TrimPrefix(raw, "/linkip")
+		case strings.HasPrefix(raw, "/ddns"):
+			raw = rapid.SampledFrom([]string{"/%64dns", "/DDNS", "/ddns%2F", "/ddnsx", "//ddns"}).Draw(t, "vary-kw") +
+				strings.TrimPrefix(raw, "/ddns")
+		default:
+			raw = "/" + strings.ToUpper(strings.TrimPrefix(raw, "/"))
+		}
+	default:
+		r.Variant = "dot-for-id"
+		segs := strings.Split(strings.TrimPrefix(raw, "/"), "/")
+		i := rapid.IntRange(0, len(segs)-1).Draw(t, "vary-pos")
+		segs[i] = rapid.SampledFrom(vc19DotSegs).Draw(t, "vary-dot")
+		raw = "/" + strings.Join(segs, "/")
+	}
+
+	r.RawPath = raw
+	r.vc19SetTarget()
+	if r.Method != http.MethodPost && r.Method != http.MethodPut {
+		r.Body, r.Chunked, r.TrailerForged = "", false, false
+	}
 
 	return r
 }
@@ -652,6 +799,27 @@ func (r *vc19Req) vc19Bytes(caseID string) (b []byte) {
 	fmt.Fprintf(&buf, "X-Vc19-Case: %s\r\n", caseID)
 	for _, h := range r.Headers {
 		fmt.Fprintf(&buf, "%s: %s\r\n", h[0], h[1])
+	}
+
+	if r.Chunked {
+		buf.WriteString("Transfer-Encoding: chunked\r\n")
+		if r.TrailerForged {
+			buf.WriteString("Trailer: X-Connecting-Ip, Cf-Connecting-Ip\r\n")
+		}
+
+		buf.WriteString("\r\n")
+		if r.Body != "" {
+			fmt.Fprintf(&buf, "%x\r\n%s\r\n", len(r.Body), r.Body)
+		}
+
+		buf.WriteString("0\r\n")
+		if r.TrailerForged {
+			buf.WriteString("X-Connecting-Ip: 203.0.113.99\r\nCf-Connecting-Ip: 2001:db8::99\r\n")
+		}
+
+		buf.WriteString("\r\n")
+
+		return buf.Bytes()
 	}
 
 	if r.Body != "" || r.Method == http.MethodPost || r.Method == http.MethodPut {
@@ -673,6 +841,10 @@ func (r *vc19Req) vc19Key(extra string) (k string) {
 
 	sort.Strings(hs)
 
+	if r.Chunked {
+		extra += " chunked"
+	}
+
 	return r.Method + " " + r.Target + " " + r.Proto + " [" + strings.Join(hs, ",") + "] " + extra
 }
 
@@ -680,12 +852,13 @@ func (r *vc19Req) vc19Key(extra string) (k string) {
 // fixture
 
 type vc19Rec struct {
-	Method string
-	URI    string
-	Path   string
-	Host   string
-	CaseID string
-	Hdr    http.Header
+	Method  string
+	URI     string
+	Path    string
+	Host    string
+	CaseID  string
+	Hdr     http.Header
+	Trailer http.Header
 }
 
 type vc19Backend struct {
@@ -698,12 +871,13 @@ func (b *vc19Backend) ServeHTTP(w http.ResponseWriter, r *http.Request) {
 
 	b.mu.Lock()
 	b.recs = append(b.recs, vc19Rec{
-		Method: r.Method,
-		URI:    r.RequestURI,
-		Path:   r.URL.Path,
-		Host:   r.Host,
-		CaseID: r.Header.Get("X-Vc19-Case"),
-		Hdr:    r.Header.Clone(),
+		Method:  r.Method,
+		URI:     r.RequestURI,
+		Path:    r.URL.Path,
+		Host:    r.Host,
+		CaseID:  r.Header.Get("X-Vc19-Case"),
+		Hdr:     r.Header.Clone(),
+		Trailer: r.Trailer.Clone(),
 	})
 	b.mu.Unlock()
 
@@ -784,6 +958,26 @@ type vc19Fixture struct {
 	fronts  []*vc19Front
 }
 
+// vc19NewServer returns the *http.Server that websvc.New builds for a linked_ip
+// bind with the given target, i.e. the handler wired the way production wires
+// it (with the production time-outs), to be served on the harness' listeners.
+func vc19NewServer(t *testing.T, apiURL *url.URL, ec *vc19ErrColl, timeout time.Duration) (srv *http.Server) {
+	svc := New(&Config{
+		LinkedIP: &LinkedIPServer{
+			TargetURL: apiURL,
+			Bind:      []*BindData{{Address: netip.MustParseAddrPort("127.0.0.1:0")}},
+		},
+		StaticContent: http.NotFoundHandler(),
+		ErrColl:       ec,
+		Timeout:       timeout,
+	})
+	if svc == nil || len(svc.linkedIP) != 1 || svc.linkedIP[0].Handler == nil {
+		t.Fatalf("harness: websvc.New did not build exactly one linked ip server")
+	}
+
+	return svc.linkedIP[0]
+}
+
 func vc19NewFixture(t *testing.T) (f *vc19Fixture) {
 	f = &vc19Fixture{backend: &vc19Backend{}, errs: &vc19ErrColl{}}
 
@@ -796,18 +990,9 @@ func vc19NewFixture(t *testing.T) (f *vc19Fixture) {
 			t.Fatalf("harness: parsing backend url: %s", err)
 		}
 
-		h := linkedIPHandler(apiURL, f.errs, "vc19"+base, 5*time.Second)
-		fr := &vc19Front{base: base, tap: &vc19Tap{h: h}}
-
-		// Same shape as the servers websvc.New builds for linked_ip binds.
-		srv := &http.Server{
-			Handler:           fr.tap,
-			ErrorLog:          stdlog.New(io.Discard, "", 0),
-			ReadTimeout:       10 * time.Second,
-			WriteTimeout:      10 * time.Second,
-			IdleTimeout:       10 * time.Second,
-			ReadHeaderTimeout: 10 * time.Second,
-		}
+		srv := vc19NewServer(t, apiURL, f.errs, 10*time.Second)
+		fr := &vc19Front{base: base, tap: &vc19Tap{h: srv.Handler}}
+		srv.Handler = fr.tap
 
 		wg := &sync.WaitGroup{}
 		l4, err := net.Listen("tcp4", "127.0.0.1:0")
@@ -836,59 +1021,90 @@ func vc19NewFixture(t *testing.T) (f *vc19Fixture) {
 	return f
 }
 
-// vc19Resp is what the client saw.
-type vc19Resp struct {
-	Status int
-	Body   string
-	Local  netip.Addr
+// vc19Client is a raw client that keeps its connection between requests the
+// way a keep-alive client does, and reconnects when the server closed it.
+type vc19Client struct {
+	addr  string
+	local net.IP
+	conn  net.Conn
+	br    *bufio.Reader
 }
 
-// vc19Do sends raw over a fresh connection and reads one response.  timedOut
-// is true when a deadline expired (inconclusive, never a verdict).
-func vc19Do(addr string, local net.IP, method string, raw []byte) (resp vc19Resp, timedOut bool, err error) {
-	d := &net.Dialer{Timeout: 10 * time.Second}
-	if local != nil {
-		d.LocalAddr = &net.TCPAddr{IP: local}
+func (c *vc19Client) close() {
+	if c.conn == nil {
+		return
 	}
 
-	conn, err := d.Dial("tcp", addr)
-	if err != nil {
-		return resp, vc19IsTimeout(err), fmt.Errorf("dialing: %w", err)
+	// Reset instead of FIN: no TIME_WAIT sockets pile up on the loopback
+	// tuple; every response has been read completely by then.
+	if tc, ok := c.conn.(*net.TCPConn); ok {
+		_ = tc.SetLinger(0)
 	}
 
-	defer func() {
-		// Reset instead of FIN: no TIME_WAIT sockets pile up on the loopback
-		// tuple; the response has been read completely by then.
-		if tc, ok := conn.(*net.TCPConn); ok {
-			_ = tc.SetLinger(0)
+	_ = c.conn.Close()
+	c.conn, c.br = nil, nil
+}
+
+// do sends raw and reads one response.  reused tells whether an earlier
+// request of the case went over the same connection.
+func (c *vc19Client) do(method string, raw []byte) (resp vc19Resp, reused, timedOut bool, err error) {
+	if c.conn == nil {
+		d := &net.Dialer{Timeout: 10 * time.Second}
+		if c.local != nil {
+			d.LocalAddr = &net.TCPAddr{IP: c.local}
 		}
 
-		_ = conn.Close()
-	}()
+		c.conn, err = d.Dial("tcp", c.addr)
+		if err != nil {
+			c.conn = nil
 
-	la, _ := netip.ParseAddrPort(conn.LocalAddr().String())
-	resp.Local = la.Addr().Unmap()
+			return resp, false, vc19IsTimeout(err), fmt.Errorf("dialing: %w", err)
+		}
 
-	_ = conn.SetDeadline(time.Now().Add(20 * time.Second))
-	if _, err = conn.Write(raw); err != nil {
-		return resp, vc19IsTimeout(err), fmt.Errorf("writing: %w", err)
+		c.br = bufio.NewReader(c.conn)
+	} else {
+		reused = true
 	}
 
-	hr, err := http.ReadResponse(bufio.NewReader(conn), &http.Request{Method: method})
+	la, _ := netip.ParseAddrPort(c.conn.LocalAddr().String())
+	resp.Local = la.Addr().Unmap()
+
+	_ = c.conn.SetDeadline(time.Now().Add(20 * time.Second))
+	if _, err = c.conn.Write(raw); err != nil {
+		c.close()
+
+		return resp, reused, vc19IsTimeout(err), fmt.Errorf("writing: %w", err)
+	}
+
+	hr, err := http.ReadResponse(c.br, &http.Request{Method: method})
 	if err != nil {
-		return resp, vc19IsTimeout(err), fmt.Errorf("reading response: %w", err)
+		c.close()
+
+		return resp, reused, vc19IsTimeout(err), fmt.Errorf("reading response: %w", err)
 	}
 
 	body, err := io.ReadAll(hr.Body)
 	_ = hr.Body.Close()
 	if err != nil {
-		return resp, vc19IsTimeout(err), fmt.Errorf("reading body: %w", err)
+		c.close()
+
+		return resp, reused, vc19IsTimeout(err), fmt.Errorf("reading body: %w", err)
 	}
 
 	resp.Status = hr.StatusCode
 	resp.Body = string(body)
+	if hr.Close || hr.ProtoMajor == 1 && hr.ProtoMinor == 0 || c.br.Buffered() > 0 {
+		c.close()
+	}
 
-	return resp, false, nil
+	return resp, reused, false, nil
+}
+
+// vc19Resp is what the client saw.
+type vc19Resp struct {
+	Status int
+	Body   string
+	Local  netip.Addr
 }
 
 func vc19IsTimeout(err error) (ok bool) {
@@ -902,242 +1118,354 @@ func vc19IsTimeout(err error) (ok bool) {
 
 func TestVerifC19Wire(t *testing.T) {
 	st := vstat.New("C19", "websvc.wire",
-		"rapid-drawn raw request lines (method x path from mutated documented shapes or free segments incl. dot/encoded/empty segments x query x absolute-form x HTTP version) and header sets (forged forwarding / client-IP headers in several spellings, repeated, Connection naming them) sent by a raw TCP client from IPv4/IPv6 loopback peers to linkedIPHandler behind a real http.Server, recording backend; non-trivial = reached the backend, or has a dot/encoded/empty segment, or carries a forged header; distinct by (method, target, version, header names, peer family, base)",
+		"rapid-drawn sequences of 1-3 raw requests over one client connection (keep-alive, reconnecting when the server closes): request lines (method x path from mutated documented shapes or free segments incl. dot/encoded/empty segments x query x absolute-form x HTTP version x Content-Length or chunked body with forged trailer) and header sets (forged forwarding / client-IP headers in several spellings, repeated, with marker, empty, zero-address and other-peer values, Connection naming them); a follow-up request is usually the previous one with exactly one component changed (method, one segment, arity, keyword, spelling, header set); sent from IPv4/IPv6 loopback peers to the http.Server websvc.New builds for a linked_ip bind, recording backend; non-trivial = reached the backend, or has a dot/encoded/empty segment, or carries a forged header; distinct by (method, target, version, header names, peer family, base)",
 		"fwd:get-linkip", "fwd:get-linkip-status", "fwd:post-linkip", "fwd:post-ddns",
 		"local-404", "robots", "rejected-near-miss", "path:dot-segment", "path:encoded-dot-segment",
 		"forwarded+forged-header", "forwarded+client-sent-x-connecting-ip", "forwarded+connection-names-client-ip",
-		"forwarded+peer-ipv4", "forwarded+peer-ipv6", "forwarded+base-path")
+		"forwarded+peer-ipv4", "forwarded+peer-ipv6", "forwarded+base-path",
+		"forwarded+forged-zero-or-empty-value", "forwarded+chunked-body",
+		"seq:forwarded-after-local-same-conn", "seq:local-after-forwarded-same-conn", "seq:forwarded-after-forwarded-same-conn",
+		"variant-forwarded", "variant-answered-locally")
 	st.Finish(t)
 
 	fx := vc19NewFixture(t)
 	caseN := 0
 
 	rapid.Check(t, func(t *rapid.T) {
-		req := vc19GenReq(t)
 		fr := rapid.SampledFrom(fx.fronts).Draw(t, "front")
 
-		addr, fam := fr.addr4, "ipv4"
-		var local net.IP
+		cl := &vc19Client{addr: fr.addr4}
+		fam, self := "ipv4", ""
 		if fr.addr6 != "" && rapid.IntRange(0, 2).Draw(t, "peer-v6") == 0 {
-			addr, fam = fr.addr6, "ipv6"
+			cl.addr, fam, self = fr.addr6, "ipv6", "::1"
 		} else {
-			local = net.IPv4(127, 0, 0, byte(rapid.IntRange(1, 8).Draw(t, "peer-v4-host")))
+			cl.local = net.IPv4(127, 0, 0, byte(rapid.IntRange(1, 8).Draw(t, "peer-v4-host")))
+			self = cl.local.String()
 		}
 
-		caseN++
-		caseID := strconv.Itoa(caseN)
+		defer cl.close()
 
-		// Nothing may be left over from an earlier case.
-		if recs := fx.backend.take(); len(recs) != 0 {
-			t.Fatalf("harness anomaly: backend got %d requests between cases: %+v", len(recs), recs)
+		n := rapid.SampledFrom([]int{1, 1, 2, 2, 3}).Draw(t, "seq-len")
+		var prevReq *vc19Req
+		prevOutcome := ""
+		for i := 0; i < n; i++ {
+			var req *vc19Req
+			if prevReq != nil && rapid.IntRange(0, 9).Draw(t, "follow-up-variant") < 7 {
+				req = vc19Vary(t, prevReq)
+			} else {
+				req = vc19GenReqFor(t, self)
+			}
+
+			caseN++
+			outcome, reused := vc19WireOne(t, st, fx, fr, cl, fam, req, strconv.Itoa(caseN))
+			if reused && prevOutcome != "" && outcome != "rejected" && prevOutcome != "rejected" {
+				st.Class("seq:" + outcome + "-after-" + prevOutcome + "-same-conn")
+			}
+
+			prevReq, prevOutcome = req, outcome
 		}
+	})
+}
 
-		fr.tap.take()
-		fx.errs.take()
+// vc19WireOne sends one request of a case and judges it.  outcome is
+// "forwarded", "local" or "rejected" (by net/http, before the handler).
+func vc19WireOne(
+	t *rapid.T,
+	st *vstat.Stats,
+	fx *vc19Fixture,
+	fr *vc19Front,
+	cl *vc19Client,
+	fam string,
+	req *vc19Req,
+	caseID string,
+) (outcome string, reused bool) {
+	// Nothing may be left over from an earlier request.
+	if recs := fx.backend.take(); len(recs) != 0 {
+		t.Fatalf("harness anomaly: backend got %d requests between cases: %+v", len(recs), recs)
+	}
 
-		wire := req.vc19Bytes(caseID)
-		resp, timedOut, err := vc19Do(addr, local, req.Method, wire)
-		recs := fx.backend.take()
-		calls := fr.tap.take()
-		perrs := fx.errs.take()
+	fr.tap.take()
+	fx.errs.take()
 
-		desc := fmt.Sprintf("request %q from %s peer %s to front base=%q", wire, fam, resp.Local, fr.base)
+	wire := req.vc19Bytes(caseID)
+	resp, reused, timedOut, err := cl.do(req.Method, wire)
+	recs := fx.backend.take()
+	calls := fr.tap.take()
+	perrs := fx.errs.take()
 
-		if timedOut {
-			fmt.Printf("VERIF-INCONCLUSIVE: time-out talking to the front server: %v (%s)\n", err, desc)
-			t.Fatalf("VERIF-INCONCLUSIVE: time-out: %v", err)
-		}
+	desc := fmt.Sprintf("request %q from %s peer %s to front base=%q (connection reused: %v, differs from the previous request in: %q)",
+		wire, fam, resp.Local, fr.base, reused, req.Variant)
 
-		if len(perrs) != 0 {
-			fmt.Printf("VERIF-INCONCLUSIVE: proxy could not reach the recording backend: %v (%s)\n", perrs, desc)
-			t.Fatalf("VERIF-INCONCLUSIVE: proxy error: %v", perrs)
-		}
+	if timedOut {
+		fmt.Printf("VERIF-INCONCLUSIVE: time-out talking to the front server: %v (%s)\n", err, desc)
+		t.Fatalf("VERIF-INCONCLUSIVE: time-out: %v", err)
+	}
 
-		classes := []string{"peer-" + fam, "method:" + vc19MethodClass(req.Method), "tmpl:" + req.Template}
-		classes = append(classes, req.PathClasses...)
-		if len(req.Forged) > 0 {
-			classes = append(classes, "hdr:forged")
-		}
+	if len(perrs) != 0 {
+		fmt.Printf("VERIF-INCONCLUSIVE: proxy could not reach the recording backend: %v (%s)\n", perrs, desc)
+		t.Fatalf("VERIF-INCONCLUSIVE: proxy error: %v", perrs)
+	}
 
-		if req.ConnListsCIP {
-			classes = append(classes, "hdr:connection-names-client-ip")
-		}
+	classes := []string{"peer-" + fam, "method:" + vc19MethodClass(req.Method), "tmpl:" + req.Template}
+	classes = append(classes, req.PathClasses...)
+	if len(req.Forged) > 0 {
+		classes = append(classes, "hdr:forged")
+	}
 
-		if req.AbsoluteTarget {
-			classes = append(classes, "target:absolute-form")
-		}
+	if req.ConnListsCIP {
+		classes = append(classes, "hdr:connection-names-client-ip")
+	}
 
-		if req.Proto == "HTTP/1.0" {
-			classes = append(classes, "proto:1.0")
-		}
+	if req.AbsoluteTarget {
+		classes = append(classes, "target:absolute-form")
+	}
 
-		interesting := len(req.PathClasses) > 0 || len(req.Forged) > 0 || req.ConnListsCIP
+	if req.Proto == "HTTP/1.0" {
+		classes = append(classes, "proto:1.0")
+	}
+
+	if req.Chunked {
+		classes = append(classes, "body:chunked")
+	}
+
+	if req.Variant != "" {
+		classes = append(classes, "variant:"+req.Variant)
+	}
+
+	if reused {
+		classes = append(classes, "conn:reused")
+	}
+
+	interesting := len(req.PathClasses) > 0 || len(req.Forged) > 0 || req.ConnListsCIP
+	done := func(extra ...string) {
 		key := ""
-		done := func(extra ...string) {
-			if interesting {
-				key = req.vc19Key(fam + " " + fr.base)
-			}
-
-			st.Case(key, append(classes, extra...)...)
+		if interesting {
+			key = req.vc19Key(fam + " " + fr.base)
 		}
 
-		// --- the server refused the request before the handler saw it.
-		if len(calls) == 0 {
-			if len(recs) != 0 {
-				t.Fatalf("backend contacted although the handler was never invoked: %+v; %s", recs, desc)
-			}
+		st.Case(key, append(classes, extra...)...)
+	}
 
-			if err != nil {
-				// A request line net/http cannot even answer (it closes the
-				// connection); nothing was forwarded, nothing to judge.
-				done("server-rejected", "server-rejected:no-response")
-
-				return
-			}
-
-			done("server-rejected", fmt.Sprintf("server-rejected:%d", resp.Status))
-
-			return
+	// --- the server refused the request before the handler saw it.
+	if len(calls) == 0 {
+		if len(recs) != 0 {
+			t.Fatalf("backend contacted although the handler was never invoked: %+v; %s", recs, desc)
 		}
 
 		if err != nil {
-			t.Fatalf("handler invoked but no readable response: %v; %s", err, desc)
+			// A request line net/http cannot even answer (it closes the
+			// connection); nothing was forwarded, nothing to judge.
+			done("server-rejected", "server-rejected:no-response")
+
+			return "rejected", reused
 		}
 
-		if len(calls) > 1 {
-			t.Fatalf("harness anomaly: handler invoked %d times for one request; %s", len(calls), desc)
+		done("server-rejected", fmt.Sprintf("server-rejected:%d", resp.Status))
+
+		return "rejected", reused
+	}
+
+	if err != nil {
+		t.Fatalf("handler invoked but no readable response: %v; %s", err, desc)
+	}
+
+	if len(calls) > 1 {
+		t.Fatalf("harness anomaly: handler invoked %d times for one request; %s", len(calls), desc)
+	}
+
+	call := calls[0]
+	for _, rec := range recs {
+		if rec.CaseID != caseID {
+			t.Fatalf("harness anomaly: backend request of case %q seen in case %s; %s", rec.CaseID, caseID, desc)
 		}
+	}
 
-		call := calls[0]
-		for _, rec := range recs {
-			if rec.CaseID != caseID {
-				t.Fatalf("harness anomaly: backend request of case %q seen in case %s; %s", rec.CaseID, caseID, desc)
-			}
-		}
-
-		// --- answered locally.
-		if len(recs) == 0 {
-			isRobots := resp.Status == http.StatusOK && call.Path == "/robots.txt" &&
-				(resp.Body == agdhttp.RobotsDisallowAll || req.Method == http.MethodHead)
-			switch {
-			case resp.Status == http.StatusNotFound:
-				classes = append(classes, "local-404")
-				if req.Template != "free" && req.Template != "robots" && req.Template != "root" && req.Mutated > 0 {
-					classes = append(classes, "rejected-near-miss")
-				}
-			case isRobots:
-				classes = append(classes, "robots")
-			default:
-				t.Fatalf("not forwarded, but answered with status %d body %q instead of 404 / robots; handler saw %s %q; %s",
-					resp.Status, resp.Body, call.Method, call.Path, desc)
-			}
-
-			done()
-
-			return
-		}
-
-		// --- forwarded.
-		interesting = true
-		if len(recs) > 1 {
-			t.Fatalf("backend contacted %d times for one client request: %+v; %s", len(recs), recs, desc)
-		}
-
-		rec := recs[0]
-		if rec.Method != req.Method || (rec.Method != http.MethodGet && rec.Method != http.MethodPost) {
-			t.Fatalf("backend contacted with method %q (client sent %q): only GET and POST are forwarded; backend saw %q; %s",
-				rec.Method, req.Method, rec.URI, desc)
-		}
-
-		rawBackendPath, _, _ := strings.Cut(rec.URI, "?")
-		pv := vc19JudgePath(rec.Method, fr.base, rec.Path, rawBackendPath)
-		if pv.Shape == "" {
-			t.Fatalf("backend contacted with %s %q (decoded %q), which is none of the four documented shapes under base %q; %s",
-				rec.Method, rec.URI, rec.Path, fr.base, desc)
-		}
-
-		classes = append(classes, "fwd:"+pv.Shape, "forwarded+peer-"+fam)
-		if fr.base != "" {
-			classes = append(classes, "forwarded+base-path")
-		}
-
-		for _, c := range req.PathClasses {
-			classes = append(classes, "forwarded+"+c)
-		}
-
-		if pv.EscapesAll {
-			if st.Known(vc19KnownDotSeg) {
-				classes = append(classes, "known:dot-segment-escape")
-			} else {
-				t.Fatalf("backend contacted with %s %q (decoded %q): after dot-segment normalisation the path is %q, outside %s/{linkip,ddns}/; %s",
-					rec.Method, rec.URI, rec.Path, pv.Norms, fr.base, desc)
-			}
-		} else if pv.EscapesSome {
-			classes = append(classes, "forwarded+escape-depends-on-reading")
-		}
-
-		// Client address.
-		cip := rec.Hdr.Values("X-Connecting-Ip")
+	// --- answered locally.
+	if len(recs) == 0 {
+		isRobots := resp.Status == http.StatusOK && call.Path == "/robots.txt" &&
+			(resp.Body == agdhttp.RobotsDisallowAll || req.Method == http.MethodHead)
 		switch {
-		case len(cip) == 0 && req.ConnListsCIP && st.Known(vc19KnownHopByHop):
-			classes = append(classes, "known:client-ip-hop-by-hop")
-		case len(cip) != 1:
-			t.Fatalf("forwarded request carries X-Connecting-IP values %q, want exactly the peer address %s; backend headers %v; %s",
-				cip, resp.Local, rec.Hdr, desc)
+		case resp.Status == http.StatusNotFound:
+			classes = append(classes, "local-404")
+			if req.Template != "free" && req.Template != "robots" && req.Template != "root" && req.Mutated > 0 {
+				classes = append(classes, "rejected-near-miss")
+			}
+		case isRobots:
+			classes = append(classes, "robots")
 		default:
-			got, perr := netip.ParseAddr(cip[0])
-			if perr != nil || got.Unmap().WithZone("") != resp.Local.WithZone("") {
-				t.Fatalf("forwarded request carries X-Connecting-IP %q, but the connecting peer is %s; backend headers %v; %s",
-					cip[0], resp.Local, rec.Hdr, desc)
-			}
+			t.Fatalf("not forwarded, but answered with status %d body %q instead of 404 / robots; handler saw %s %q; %s",
+				resp.Status, resp.Body, call.Method, call.Path, desc)
 		}
 
-		// The handler must have been shown the same peer by net/http (sanity
-		// of the observation point).
-		if ap, aerr := netip.ParseAddrPort(call.Remote); aerr != nil || ap.Addr().Unmap().WithZone("") != resp.Local.WithZone("") {
-			t.Fatalf("harness anomaly: handler RemoteAddr %q is not the client socket %s; %s", call.Remote, resp.Local, desc)
-		}
-
-		// Forged forwarding headers.
-		for _, name := range vc19FwdNames {
-			for _, v := range rec.Hdr.Values(name) {
-				if vc19HasMarker(v) {
-					t.Fatalf("forwarded request carries client-supplied %s: %q; backend headers %v; %s", name, v, rec.Hdr, desc)
-				}
-			}
-		}
-
-		if len(req.Forged) > 0 {
-			classes = append(classes, "forwarded+forged-header")
-		}
-
-		if req.SentOwnCIP {
-			classes = append(classes, "forwarded+client-sent-x-connecting-ip")
-		}
-
-		if req.ConnListsCIP {
-			classes = append(classes, "forwarded+connection-names-client-ip")
-		}
-
-		if resp.Status == http.StatusOK {
-			classes = append(classes, "forwarded+client-got-200")
-		}
-
-		if st.WantSample() && len(wire) < 400 && (len(req.PathClasses) > 0 || req.ConnListsCIP) {
-			st.Sample(map[string]any{
-				"request":         string(wire),
-				"peer":            resp.Local.String(),
-				"base":            fr.base,
-				"backend_uri":     rec.URI,
-				"backend_path":    rec.Path,
-				"x_connecting_ip": cip,
-				"normalised":      pv.Norms,
-				"status":          resp.Status,
-			})
+		if req.Variant != "" {
+			classes = append(classes, "variant-answered-locally")
 		}
 
 		done()
-	})
+
+		return "local", reused
+	}
+
+	// --- forwarded.
+	interesting = true
+	if len(recs) > 1 {
+		t.Fatalf("backend contacted %d times for one client request: %+v; %s", len(recs), recs, desc)
+	}
+
+	rec := recs[0]
+	if rec.Method != req.Method || (rec.Method != http.MethodGet && rec.Method != http.MethodPost) {
+		t.Fatalf("backend contacted with method %q (client sent %q): only GET and POST are forwarded; backend saw %q; %s",
+			rec.Method, req.Method, rec.URI, desc)
+	}
+
+	rawBackendPath, _, _ := strings.Cut(rec.URI, "?")
+	pv := vc19JudgePath(rec.Method, fr.base, rec.Path, rawBackendPath)
+	if pv.Shape == "" {
+		t.Fatalf("backend contacted with %s %q (decoded %q), which is none of the four documented shapes under base %q; %s",
+			rec.Method, rec.URI, rec.Path, fr.base, desc)
+	}
+
+	classes = append(classes, "fwd:"+pv.Shape, "forwarded+peer-"+fam)
+	if fr.base != "" {
+		classes = append(classes, "forwarded+base-path")
+	}
+
+	for _, c := range req.PathClasses {
+		classes = append(classes, "forwarded+"+c)
+		if c == "path:dot-segment" || c == "path:encoded-dot-segment" {
+			st.Extra("forwarded_with_dot_class:"+req.Method+" "+req.RawPath, rec.URI)
+		}
+	}
+
+	if pv.EscapesAll {
+		if st.Known(vc19KnownDotSeg) {
+			classes = append(classes, "known:dot-segment-escape")
+		} else {
+			t.Fatalf("backend contacted with %s %q (decoded %q): after dot-segment normalisation the path is %q, outside %s/{linkip,ddns}/; %s",
+				rec.Method, rec.URI, rec.Path, pv.Norms, fr.base, desc)
+		}
+	} else if pv.EscapesSome {
+		classes = append(classes, "forwarded+escape-depends-on-reading")
+	}
+
+	// Client address.
+	cip := rec.Hdr.Values("X-Connecting-Ip")
+	switch {
+	case len(cip) == 0 && req.ConnListsCIP && st.Known(vc19KnownHopByHop):
+		classes = append(classes, "known:client-ip-hop-by-hop")
+	case len(cip) != 1:
+		t.Fatalf("forwarded request carries X-Connecting-IP values %q, want exactly the peer address %s; backend headers %v; %s",
+			cip, resp.Local, rec.Hdr, desc)
+	default:
+		got, perr := netip.ParseAddr(cip[0])
+		if perr != nil || got.Unmap().WithZone("") != resp.Local.WithZone("") {
+			t.Fatalf("forwarded request carries X-Connecting-IP %q, but the connecting peer is %s; backend headers %v; %s",
+				cip[0], resp.Local, rec.Hdr, desc)
+		}
+	}
+
+	// The handler must have been shown the same peer by net/http (sanity
+	// of the observation point).
+	if ap, aerr := netip.ParseAddrPort(call.Remote); aerr != nil || ap.Addr().Unmap().WithZone("") != resp.Local.WithZone("") {
+		t.Fatalf("harness anomaly: handler RemoteAddr %q is not the client socket %s; %s", call.Remote, resp.Local, desc)
+	}
+
+	// Forged forwarding headers.
+	if name, v, bad := vc19ForgedAtBackend(req, rec.Hdr); bad {
+		t.Fatalf("forwarded request carries client-supplied %s: %q; backend headers %v; %s", name, v, rec.Hdr, desc)
+	}
+
+	// Trailer fields are not header fields for any mainstream backend: a
+	// forged one that reaches the backend is counted, not judged.
+	for _, name := range vc19FwdNames {
+		for _, v := range rec.Trailer.Values(name) {
+			if vc19HasMarker(v) {
+				classes = append(classes, "forwarded+forged-trailer-field-reached-backend")
+			}
+		}
+	}
+
+	if len(req.Forged) > 0 {
+		classes = append(classes, "forwarded+forged-header")
+	}
+
+	if req.ZeroForged {
+		classes = append(classes, "forwarded+forged-zero-or-empty-value")
+	}
+
+	if req.SentOwnCIP {
+		classes = append(classes, "forwarded+client-sent-x-connecting-ip")
+	}
+
+	if req.ConnListsCIP {
+		classes = append(classes, "forwarded+connection-names-client-ip")
+	}
+
+	if req.Chunked {
+		classes = append(classes, "forwarded+chunked-body")
+	}
+
+	if req.Variant != "" {
+		classes = append(classes, "variant-forwarded")
+	}
+
+	if resp.Status == http.StatusOK {
+		classes = append(classes, "forwarded+client-got-200")
+	}
+
+	if st.WantSample() && len(wire) < 400 && (len(req.PathClasses) > 0 || req.ConnListsCIP) {
+		st.Sample(map[string]any{
+			"request":         string(wire),
+			"peer":            resp.Local.String(),
+			"base":            fr.base,
+			"backend_uri":     rec.URI,
+			"backend_path":    rec.Path,
+			"x_connecting_ip": cip,
+			"normalised":      pv.Norms,
+			"status":          resp.Status,
+		})
+	}
+
+	done()
+
+	return "forwarded", reused
+}
+
+// vc19ForgedAtBackend reports a forwarding header of the backend request whose
+// value was supplied by the client: it carries a marker, or it is one of the
+// values the client sent under that name (empty, zero address, another
+// peer's address; never the client's own address), alone or as a list element.
+// X-Connecting-IP is judged by the exact-value check instead.
+func vc19ForgedAtBackend(req *vc19Req, hdr http.Header) (name, value string, bad bool) {
+	for _, name = range vc19FwdNames {
+		for _, v := range hdr.Values(name) {
+			if vc19HasMarker(v) {
+				return name, v, true
+			}
+
+			if name == "X-Connecting-Ip" {
+				continue
+			}
+
+			for _, sent := range req.Sent[name] {
+				if v == sent {
+					return name, v, true
+				}
+
+				if sent == "" {
+					continue
+				}
+
+				for _, el := range strings.Split(v, ",") {
+					if strings.TrimSpace(el) == sent {
+						return name, v, true
+					}
+				}
+			}
+		}
+	}
+
+	return "", "", false
 }
 
 func vc19MethodClass(m string) (c string) {
